@@ -41,7 +41,7 @@ struct utcp_listener
 	uint8_t bRestartedHandshake : 1;
 
 	/** The serverside-only 'secret' value, used to help with generating cookies. */
-	uint8_t HandshakeSecret[SECRET_BYTE_SIZE][SECRET_COUNT];
+	uint8_t HandshakeSecret[SECRET_COUNT][SECRET_BYTE_SIZE];
 
 	/** Which of the two secret values above is active (values are changed frequently, to limit replay attacks) */
 	uint8_t ActiveSecret;
